@@ -145,6 +145,20 @@ def _disp2eig(ctx):
         disp = cfac[:, None] * eig / numpy.sqrt(numpy.repeat(mass, 3))[None, :]
         disp0 = disp.copy()
         m_arg = list(mass) if i % 2 else numpy.array(mass)
+        mkind = "float"
+        if i % 5 == 3 and nat >= 2:
+            # masses as people type them: some whole numbers written as Python ints (12, 16) next to 15.999, 24.305 - a plain list of mixed
+            # int/float entries; the integer-typed ones are placed first, last or in the middle
+            whole = numpy.zeros(nat, dtype=bool)
+            whole[rng.choice(nat, size=int(rng.integers(1, nat)), replace=False)] = True
+            whole[[0, nat - 1, nat // 2][(i // 5) % 3]] = True
+            if whole.all():
+                whole[(1 + [0, nat - 1, nat // 2][(i // 5) % 3]) % nat] = False
+            mass = numpy.where(whole, numpy.round(mass) + 1.0, mass)
+            disp = cfac[:, None] * eig / numpy.sqrt(numpy.repeat(mass, 3))[None, :]
+            disp0 = disp.copy()
+            m_arg = [int(mass[j]) if whole[j] else float(mass[j]) for j in range(nat)]
+            mkind = "mixed-int-float"
         case_id = f"d2e{i}"
         try:
             got = evec_disp2eig(disp, m_arg)
@@ -154,7 +168,7 @@ def _disp2eig(ctx):
             else:
                 ctx.harness_error("C20.disp2eig", exc)
             continue
-        ctx.evaluation(f"disp2eig-{'complex' if cplx else 'real'}-{'square' if rows == n else 'partial'}", (nat, rows, cplx, i),
+        ctx.evaluation(f"disp2eig-{'complex' if cplx else 'real'}-{'square' if rows == n else 'partial'}" + ("" if mkind == "float" else "-masses:" + mkind), (nat, rows, cplx, i),
                        nontrivial=rows >= 1 and nat >= 1, sample={"atoms": nat, "rows": rows, "complex": cplx, "mass_head": mass[:3]})
         got = numpy.asarray(got)
         if got.shape != disp0.shape:
